@@ -1080,8 +1080,8 @@ static int rtr_sync_receive_and_store_pdus(struct rtr_socket *rtr_socket)
 				snprintf(txt, sizeof(txt),
 					 "Expected session_id: %u, received session_id. %u in EOD PDU",
 					 rtr_socket->session_id, eod_pdu->session_id);
-				rtr_send_error_pdu_from_host(rtr_socket, pdu, RTR_MAX_PDU_LEN, CORRUPT_DATA, txt,
-							     strlen(txt) + 1);
+				rtr_send_error_pdu_from_host(rtr_socket, pdu, ((struct pdu_header *)pdu)->len,
+							     CORRUPT_DATA, txt, strlen(txt) + 1);
 				rtr_change_socket_state(rtr_socket, RTR_ERROR_FATAL);
 				retval = RTR_ERROR;
 				goto cleanup;
